@@ -323,7 +323,10 @@ int bufr_subset_find_values( DataSubset *dts, BufrDescValue *codes, int nb, int 
 				scale = qd->encoding.scale ? pow(10,(double)qd->encoding.scale) : 1;
 				epsilon = 0.5 / scale;
 					
-				if( bufr_compare_value( qd->value, qual[k].values[0], epsilon ) )
+				/* a key without value (bufr_set_key_qualifier with NULL) asks
+				 * for the qualifier to be in effect, whatever its value */
+				if( qual[k].nbval > 0
+					&& bufr_compare_value( qd->value, qual[k].values[0], epsilon ) )
 					{
 					break;
 					}
